@@ -586,9 +586,7 @@ class PendingAssign(PendingNode[Assign | AnnAssign]):
         return self.nsp.get_assign(target.id, value)
 
     def assign_subscript(self, target: Subscript, value: expr):
-        _slice = target.slice
-        if isinstance(_slice, Slice):
-            _slice = utils.convert_slice(_slice)
+        _slice = utils.convert_index(expr_transf(self.nsp, target.slice))
 
         return Call(
             func=Attribute(
@@ -772,15 +770,13 @@ class PendingAugAssign(PendingNode[AugAssign]):
             target = self.node.target
             subscript_parent = expr_transf(self.nsp, target.value)
 
-            slice_expr = target.slice
-            if isinstance(slice_expr, Slice):
-                slice_expr = utils.convert_slice(slice_expr)
+            slice_expr = utils.convert_index(expr_transf(self.nsp, target.slice))
 
             # save slice expr to a tmp
             return_list.append(
                 NamedExpr(
                     target=tmp_slice_name,
-                    value=expr_transf(self.nsp, slice_expr),
+                    value=slice_expr,
                 )
             )
 
